@@ -3,10 +3,6 @@ from pyvc.registry import contract
 
 TH = ["cli", "events", "types", "values", "sql"]
 
-contract("monkeytype.stubs:build_module_stubs_from_traces", props=["C10", "C01", "C14"], theories=TH, mode="assumed",
-         params={"traces": "Seq[Trace]", "max_typed_dict_size": "Opt[int]", "existing_annotation_strategy": "Enum:ExistingAnnotationStrategy", "rewriter": "Opt[Rewriter]"},
-         result="StubMap",
-         note="callers only need that the stub map is a function of (traces, k, strategy, rewriter); its own body is under contract in contracts/stubs2.py")
 contract("monkeytype.cli:display_sample_count", props=["C10"], theories=TH, mode="assumed", pure=False, effects="print",
          params={"traces": "Seq[Trace]", "stderr": "Stream"}, result="none", note="prints one line per function; outside every property",
          ensures={"post:only-stderr": "len(effects()) >= len(old(effects())) and forall(range_(0, len(old(effects()))), lambda q: nth(effects(), q) is nth(old(effects()), q))"
@@ -17,6 +13,10 @@ _N = "len(%s)" % _THUNKS
 _NOOP = "noop_rewriter()"
 contract("monkeytype.cli:get_stub", props=["C10", "C01", "C06", "C14", "C13"], theories=TH, pure=False, effects="print",
          params={"args": "Args", "stdout": "Stream", "stderr": "Stream"}, result="Opt[ModuleStub]",
+         assumes={"decoded-traces-are-well-formed": "forall_v(lambda th: implies(decodes(th), DEC(th) is not None and is_dictlike_(tag_(DEC(th), 'Trace').arg_types)"
+                                                    " and forall(tag_(DEC(th), 'Trace').arg_types, lambda n: wf_rw(lookup(tag_(DEC(th), 'Trace').arg_types, n)) and lookup(tag_(DEC(th), 'Trace').arg_types, n) is not ELLIPSIS_ and lookup(tag_(DEC(th), 'Trace').arg_types, n) is not None)"
+                                                    " and implies(tag_(DEC(th), 'Trace').return_type is not None, wf_rw(tag_(DEC(th), 'Trace').return_type) and tag_(DEC(th), 'Trace').return_type is not ELLIPSIS_)"
+                                                    " and implies(tag_(DEC(th), 'Trace').yield_type is not None, wf_rw(tag_(DEC(th), 'Trace').yield_type) and tag_(DEC(th), 'Trace').yield_type is not ELLIPSIS_)))"},
          ensures={
              # the stub is built from exactly the decodable traces, in store order, with the configured k / rewriter / strategy
              "post:traces": "L_traces is DECS(%s, %s)" % (_THUNKS, _N),
@@ -36,6 +36,7 @@ contract("monkeytype.cli:get_stub", props=["C10", "C01", "C06", "C14", "C13"], t
          },
          loops={0: {"iter": "thunks",
                     "inv": {"traces": "traces is DECS(thunks, _i)",
+                            "from-thunks": "forall(traces, lambda t: exists(range_(0, _i), lambda j: decodes(nth(thunks, j)) and t is DEC(nth(thunks, j))))",
                             "failed": "failed_to_decode_count == NF(thunks, _i)",
                             "eff-len": "len(effects()) == len(old(effects())) + ite(args_verbose(args), NF(thunks, _i), 0)",
                             "eff-prefix": "forall(range_(0, len(old(effects()))), lambda q: nth(effects(), q) is nth(old(effects()), q))",
